@@ -25,3 +25,521 @@ Proof.
   destruct (lf <? af) eqn:E1; cbn; try reflexivity;
   (assert (af <? lf = true) as -> by (apply Z.ltb_lt; apply Z.ltb_ge in E1; lia)); reflexivity.
 Qed.
+
+(** ------------------------------------------------------------------ graph plumbing *)
+Lemma nodup_keysb_sound l : nodup_keysb l = true -> NoDup l.
+Proof.
+  induction l as [|x r IH]; cbn; [constructor|]. intros H. apply andb_true_iff in H. destruct H as [H1 H2].
+  constructor; [|auto]. intros I. apply negb_true_iff in H1.
+  assert (existsb (Z.eqb x) r = true) by (apply existsb_exists; exists x; split; [assumption|apply Z.eqb_refl]).
+  congruence.
+Qed.
+
+Lemma gfind_some k g n : gfind k g = Some n -> In n g /\ nk n = k.
+Proof.
+  induction g as [|m r IH]; cbn; [discriminate|]. destruct (Z.eqb_spec (nk m) k).
+  - intros [= <-]. auto.
+  - intros H. destruct (IH H). auto.
+Qed.
+Lemma gfind_nodup g n : NoDup (node_keys g) -> In n g -> gfind (nk n) g = Some n.
+Proof.
+  induction g as [|m r IH]; cbn; [contradiction|]. intros ND [->|I].
+  - now rewrite Z.eqb_refl.
+  - inversion ND as [|? ? NI ND']; subst. destruct (Z.eqb_spec (nk m) (nk n)) as [E|_]; [|auto].
+    exfalso. apply NI. rewrite E. unfold node_keys. now apply in_map.
+Qed.
+
+(** two graphs with the same keys and adjacency (attributes may differ) *)
+Definition shape (g : graph) : list (Z * list (Z * attrs)) := map (fun n => (nk n, nadj n)) g.
+Lemma shape_gfind g h : shape g = shape h -> forall k,
+  match gfind k g, gfind k h with
+  | Some n, Some m => nk n = nk m /\ nadj n = nadj m
+  | None, None => True
+  | _, _ => False
+  end.
+Proof.
+  revert h. induction g as [|n r IH]; destruct h as [|m r']; cbn; try discriminate; [auto|].
+  intros [= E1 E2 E3] k. rewrite <- E1. destruct (Z.eqb (nk n) k); [auto|]. now apply IH.
+Qed.
+Lemma shape_gupdate k f g : (forall n, nk (f n) = nk n /\ nadj (f n) = nadj n) -> shape (gupdate k f g) = shape g.
+Proof.
+  intros Hf. induction g as [|n r IH]; cbn; [reflexivity|]. destruct (Z.eqb (nk n) k); cbn.
+  - destruct (Hf n) as [-> ->]. reflexivity.
+  - f_equal. exact IH.
+Qed.
+Lemma shape_set_node_attr g k a v : shape (set_node_attr g k a v) = shape g.
+Proof. apply shape_gupdate. intros n; cbn; auto. Qed.
+Lemma shape_del_node_attr g k a : shape (del_node_attr g k a) = shape g.
+Proof. apply shape_gupdate. intros n; cbn; auto. Qed.
+
+Lemma shape_has_node g h k : shape g = shape h -> has_node g k = has_node h k.
+Proof. intros E. unfold has_node. pose proof (shape_gfind g h E k). destruct (gfind k g), (gfind k h); tauto. Qed.
+Lemma shape_has_edge g h u v : shape g = shape h -> has_edge g u v = has_edge h u v.
+Proof.
+  intros E. unfold has_edge. pose proof (shape_gfind g h E u).
+  destruct (gfind u g), (gfind u h); try tauto. destruct H as [_ ->]. reflexivity.
+Qed.
+Lemma shape_edge_get g h u v a : shape g = shape h -> edge_get g u v a = edge_get h u v a.
+Proof.
+  intros E. unfold edge_get, edge_attrs. pose proof (shape_gfind g h E u).
+  destruct (gfind u g), (gfind u h); try tauto. destruct H as [_ ->]. reflexivity.
+Qed.
+Lemma shape_path_ok g h l1 a1 a2 l2 : shape g = shape h -> path_ok g l1 a1 a2 l2 = path_ok h l1 a1 a2 l2.
+Proof.
+  intros E. unfold path_ok.
+  rewrite !(shape_has_node g h _ E), !(shape_has_edge g h _ _ E), (shape_edge_get g h _ _ _ E). reflexivity.
+Qed.
+Lemma shape_tuple_ok g h k v : shape g = shape h -> tuple_ok g k v = tuple_ok h k v.
+Proof.
+  intros E. unfold tuple_ok. destruct (as_tuple5 v) as [[[[[l1 a1] a2] l2] c]|]; [|reflexivity].
+  now rewrite (shape_path_ok g h _ _ _ _ E).
+Qed.
+Lemma shape_node_keys g h : shape g = shape h -> node_keys g = node_keys h.
+Proof.
+  unfold shape, node_keys. revert h. induction g; destruct h; cbn; try discriminate; [auto|].
+  intros [= E1 E2 E3]. rewrite E1. f_equal. auto.
+Qed.
+
+(** attribute reads after attribute writes *)
+Lemma gfind_gupdate k f g k' : (forall n, nk (f n) = nk n) ->
+  gfind k' (gupdate k f g) = if Z.eqb k' k then option_map f (gfind k g) else gfind k' g.
+Proof.
+  intros Hf. induction g as [|n r IH]; cbn; [now destruct (Z.eqb k' k)|].
+  destruct (Z.eqb_spec (nk n) k) as [E|N]; cbn.
+  - rewrite Hf. destruct (Z.eqb_spec k' k) as [->|N'].
+    + rewrite E, Z.eqb_refl. reflexivity.
+    + destruct (Z.eqb_spec (nk n) k'); [congruence|reflexivity].
+  - destruct (Z.eqb_spec (nk n) k') as [E'|N'].
+    + destruct (Z.eqb_spec k' k); [congruence|reflexivity].
+    + exact IH.
+Qed.
+
+Lemma aget_adel_other k k' a : k <> k' -> aget k (adel k' a) = aget k a.
+Proof.
+  intros N. induction a as [|[k2 v2] r IH]; cbn; [reflexivity|].
+  destruct (str_eqb_spec k' k2) as [->|N2]; cbn.
+  - destruct (str_eqb_spec k k2); [contradiction|reflexivity].
+  - destruct (str_eqb k k2); [reflexivity|exact IH].
+Qed.
+
+Lemma node_get_set g k a v k' a' :
+  node_get (set_node_attr g k a v) k' a' =
+  if Z.eqb k' k && has_node g k then (if str_eqb a' a then Some v else node_get g k' a') else node_get g k' a'.
+Proof.
+  unfold node_get, set_node_attr, has_node. rewrite gfind_gupdate by reflexivity.
+  destruct (Z.eqb_spec k' k) as [->|N]; cbn; [|reflexivity].
+  destruct (gfind k g) as [n|]; cbn; [|reflexivity].
+  destruct (str_eqb_spec a' a) as [->|N].
+  - apply aget_aset_same.
+  - now apply aget_aset_other.
+Qed.
+Lemma node_get_del_other g k a k' a' : a' <> a ->
+  node_get (del_node_attr g k a) k' a' = node_get g k' a'.
+Proof.
+  intros N. unfold node_get, del_node_attr. rewrite gfind_gupdate by reflexivity.
+  destruct (Z.eqb_spec k' k) as [->|_]; [|reflexivity].
+  destruct (gfind k g); cbn; [|reflexivity]. now apply aget_adel_other.
+Qed.
+
+(** ------------------------------------------------------------------ the append fold *)
+Lemma ez_list_append g kt k :
+  ez_list (append_ez g kt) k =
+  if Z.eqb k (fst kt) && has_node g (fst kt) then ez_list g k ++ [snd kt] else ez_list g k.
+Proof.
+  unfold append_ez, ez_list at 1. rewrite node_get_set.
+  destruct (Z.eqb_spec k (fst kt)) as [->|N]; cbn; [|reflexivity].
+  destruct (has_node g (fst kt)); cbn; reflexivity.
+Qed.
+Lemma shape_apply_appends apps : forall g, shape (apply_appends g apps) = shape g.
+Proof.
+  induction apps as [|kt r IH]; intros g; cbn; [reflexivity|].
+  unfold apply_appends in IH. rewrite IH. apply shape_set_node_attr.
+Qed.
+Lemma apply_appends_old apps : forall g k v, In v (ez_list g k) -> In v (ez_list (apply_appends g apps) k).
+Proof.
+  induction apps as [|kt r IH]; intros g k v I; cbn; [assumption|]. apply IH.
+  rewrite ez_list_append. destruct (_ && _); [apply in_or_app; now left|assumption].
+Qed.
+Lemma apply_appends_in apps : forall g k v, In v (ez_list (apply_appends g apps) k) ->
+  In v (ez_list g k) \/ In (k, v) apps.
+Proof.
+  induction apps as [|[k0 t] r IH]; intros g k v I; cbn in *; [now left|].
+  destruct (IH _ _ _ I) as [H|H]; [|now right; right].
+  rewrite ez_list_append in H. cbn in H. destruct (Z.eqb_spec k k0) as [->|N]; cbn in H; [|now left].
+  destruct (has_node g k0); [|now left].
+  apply in_app_or in H. destruct H as [H|[<-|[]]]; [now left|right; now left].
+Qed.
+Lemma apply_appends_new apps : forall g k v, In (k, v) apps -> has_node g k = true ->
+  In v (ez_list (apply_appends g apps) k).
+Proof.
+  induction apps as [|[k0 t] r IH]; intros g k v I Hn; cbn in *; [contradiction|].
+  destruct I as [[= -> ->]|I].
+  - apply apply_appends_old. rewrite ez_list_append. cbn. rewrite Z.eqb_refl, Hn. cbn.
+    apply in_or_app. right. now left.
+  - apply IH; [assumption|]. unfold append_ez.
+    rewrite (shape_has_node _ g k (shape_set_node_attr _ _ _ _)). assumption.
+Qed.
+
+(** deleting 'ez_isomer_class' leaves shape and 'ez_isomer' alone *)
+Lemma del_class_shape (d : ezdict) : forall g,
+  shape (fold_left (fun acc kv => del_node_attr acc (fst kv) (S "ez_isomer_class")) d g) = shape g.
+Proof.
+  induction d as [|kv r IH]; intros g; cbn; [reflexivity|]. rewrite IH. apply shape_del_node_attr.
+Qed.
+Lemma del_class_get (d : ezdict) a : a <> S "ez_isomer_class" -> forall g k,
+  node_get (fold_left (fun acc kv => del_node_attr acc (fst kv) (S "ez_isomer_class")) d g) k a = node_get g k a.
+Proof.
+  intros N. induction d as [|kv r IH]; intros g k; cbn; [reflexivity|]. rewrite IH. now apply node_get_del_other.
+Qed.
+Lemma del_class_ez_list (d : ezdict) g k :
+  ez_list (fold_left (fun acc kv => del_node_attr acc (fst kv) (S "ez_isomer_class")) d g) k = ez_list g k.
+Proof. unfold ez_list. rewrite del_class_get; [reflexivity|]. intros E. vm_compute in E. discriminate. Qed.
+
+(** ------------------------------------------------------------------ where the pairs come from *)
+Lemma on_anchor_in g ez a o x : In x (on_anchor g ez a o) ->
+  s_anc x = a /\ In (s_lig x) (neighbors g a) /\ s_lig x <> a /\ s_lig x <> o /\ ez_get (s_lig x) ez = Some (s_tok x).
+Proof.
+  unfold on_anchor. intros I. apply in_flat_map in I. destruct I as [n [In1 I]].
+  destruct (Z.eqb_spec n a) as [|Na]; cbn in I; [contradiction|].
+  destruct (Z.eqb_spec n o) as [|No]; cbn in I; [contradiction|].
+  destruct (ez_get n ez) eqn:E; [|contradiction]. destruct I as [<-|[]]. cbn. auto.
+Qed.
+
+Lemma edge_pairs_in g ez a1 a2 d ps x y : edge_pairs g ez (a1, a2, d) = Ok ps -> In (x, y) ps ->
+  is_two (aget (S "order") d) = true /\ In x (on_anchor g ez a1 a2) /\ In y (on_anchor g ez a2 a1).
+Proof.
+  unfold edge_pairs. destruct (is_two (aget (S "order") d)); cbn; [|intros [= <-] []].
+  destruct (xorb _ _); [discriminate|].
+  destruct (conflict_check a1 _); cbn; [|discriminate].
+  destruct (conflict_check a2 _); cbn; [|discriminate].
+  intros [= <-] I. apply in_prod_iff in I. tauto.
+Qed.
+
+Lemma all_pairs_of_in g ez es : forall ps p, all_pairs_of g ez es = Ok ps -> In p ps ->
+  exists e ps', In e es /\ edge_pairs g ez e = Ok ps' /\ In p ps'.
+Proof.
+  induction es as [|e r IH]; cbn; intros ps p H I.
+  - inversion H; subst. contradiction.
+  - destruct (edge_pairs g ez e) as [pe|] eqn:E1; cbn in H; [|discriminate].
+    destruct (all_pairs_of g ez r) as [pr|] eqn:E2; cbn in H; [|discriminate].
+    inversion H; subst. apply in_app_or in I. destruct I as [I|I].
+    + exists e, pe. auto.
+    + destruct (IH _ _ eq_refl I) as [e' [ps' [H1 [H2 H3]]]]. exists e', ps'. auto.
+Qed.
+
+Lemma edges_from_in g : forall seen u v d, In (u, v, d) (edges_from g seen) ->
+  exists n, In n g /\ nk n = u /\ In (v, d) (nadj n).
+Proof.
+  induction g as [|n r IH]; cbn; intros seen u v d I; [contradiction|].
+  apply in_app_or in I. destruct I as [I|I].
+  - apply in_flat_map in I. destruct I as [[w a] [I1 I2]]. cbn in I2.
+    destruct (existsb _ seen); [contradiction|]. destruct I2 as [[= <- <- <-]|[]].
+    exists n. auto.
+  - destruct (IH _ _ _ _ I) as [m [H1 H2]]. exists m. auto.
+Qed.
+
+Lemma adj_get_in v l : In v (map fst l) -> exists d, adj_get v l = Some d.
+Proof.
+  induction l as [|[w a] r IH]; cbn; [contradiction|]. intros [<-|I].
+  - rewrite Z.eqb_refl. eauto.
+  - destruct (Z.eqb w v); eauto.
+Qed.
+Lemma adj_get_nodup v d l : NoDup (map fst l) -> In (v, d) l -> adj_get v l = Some d.
+Proof.
+  induction l as [|[w a] r IH]; cbn; [contradiction|]. intros ND [[= -> ->]|I].
+  - now rewrite Z.eqb_refl.
+  - inversion ND as [|? ? NI ND']; subst. destruct (Z.eqb_spec w v) as [->|_]; [|auto].
+    exfalso. apply NI. change v with (fst (v, d)). now apply in_map.
+Qed.
+
+Record wf_graph (g : graph) : Prop := {
+  wf_keys : NoDup (node_keys g);
+  wf_closed : forall n w d, In n g -> In (w, d) (nadj n) -> has_node g w = true;
+  wf_adj : forall n, In n g -> NoDup (map fst (nadj n));
+  wf_sym : forall n w d, In n g -> In (w, d) (nadj n) ->
+     has_edge g w (nk n) = true /\ is_two (edge_get g w (nk n) (S "order")) = is_two (aget (S "order") d) }.
+Lemma wf_graphb_sound g : wf_graphb g = true -> wf_graph g.
+Proof.
+  unfold wf_graphb. intros H. apply andb_true_iff in H. destruct H as [H H4].
+  apply andb_true_iff in H. destruct H as [H H3].
+  apply andb_true_iff in H. destruct H as [H1 H2]. split.
+  - now apply nodup_keysb_sound.
+  - intros n w d I1 I2. unfold adj_closedb in H2. rewrite forallb_forall in H2.
+    specialize (H2 _ I1). rewrite forallb_forall in H2. exact (H2 _ I2).
+  - intros n I. unfold adj_nodupb in H3. rewrite forallb_forall in H3. apply nodup_keysb_sound. auto.
+  - intros n w d I1 I2. unfold adj_symb in H4. rewrite forallb_forall in H4.
+    specialize (H4 _ I1). rewrite forallb_forall in H4. specialize (H4 _ I2). cbn in H4.
+    apply andb_true_iff in H4. destruct H4 as [A B]. split; [assumption|]. now apply eqb_prop.
+Qed.
+
+Lemma neighbor_edge g a l : wf_graph g -> In l (neighbors g a) ->
+  has_node g a = true /\ has_node g l = true /\ has_edge g a l = true.
+Proof.
+  intros W. unfold neighbors, has_node at 1, has_edge. destruct (gfind a g) as [n|] eqn:E; [|contradiction].
+  intros I. destruct (gfind_some _ _ _ E) as [In1 _]. split; [reflexivity|].
+  destruct (adj_get_in _ _ I) as [d Hd]. rewrite Hd. split; [|reflexivity].
+  apply in_map_iff in I. destruct I as [[w d'] [<- I]]. exact (wf_closed g W n w d' In1 I).
+Qed.
+
+Lemma edge_lookup g n v d : wf_graph g -> In n g -> In (v, d) (nadj n) ->
+  has_edge g (nk n) v = true /\ edge_get g (nk n) v (S "order") = aget (S "order") d.
+Proof.
+  intros W I1 I2.
+  assert (F : gfind (nk n) g = Some n) by (apply gfind_nodup; [apply W|assumption]).
+  assert (G : adj_get v (nadj n) = Some d) by (apply adj_get_nodup; [now apply W|assumption]).
+  unfold has_edge, edge_get, edge_attrs. rewrite F, G. auto.
+Qed.
+
+(** every pair the model produces is a path ligand - anchor = anchor - ligand of the graph,
+    read from either end *)
+Lemma pair_path g ez ps x y : wf_graph g -> all_pairs g ez = Ok ps -> In (x, y) ps ->
+  path_ok g (s_lig x) (s_anc x) (s_anc y) (s_lig y) = true /\
+  path_ok g (s_lig y) (s_anc y) (s_anc x) (s_lig x) = true.
+Proof.
+  intros W H I. unfold all_pairs in H.
+  destruct (all_pairs_of_in _ _ _ _ _ H I) as [[[a1 a2] d] [ps' [Ie [He Ip]]]].
+  destruct (edge_pairs_in _ _ _ _ _ _ _ _ He Ip) as [H2 [Ix Iy]].
+  destruct (on_anchor_in _ _ _ _ _ Ix) as [-> [Nx [X1 [X2 _]]]].
+  destruct (on_anchor_in _ _ _ _ _ Iy) as [-> [Ny [Y1 [Y2 _]]]].
+  destruct (neighbor_edge _ _ _ W Nx) as [Ha1 [Hl1 He1]].
+  destruct (neighbor_edge _ _ _ W Ny) as [Ha2 [Hl2 He2]].
+  destruct (edges_from_in _ _ _ _ _ Ie) as [n [In1 [Hk Ia]]]. subst a1.
+  destruct (edge_lookup _ _ _ _ W In1 Ia) as [E12 O12].
+  destruct (wf_sym g W _ _ _ In1 Ia) as [E21 O21].
+  unfold path_ok. rewrite Hl1, Ha1, Ha2, Hl2, He1, He2, E12, E21, O21, O12, H2. cbn.
+  destruct (Z.eqb_spec (s_lig x) (nk n)); [contradiction|]. destruct (Z.eqb_spec (s_lig x) a2); [contradiction|].
+  destruct (Z.eqb_spec (s_lig y) (nk n)); [contradiction|]. destruct (Z.eqb_spec (s_lig y) a2); [contradiction|].
+  auto.
+Qed.
+
+(** ------------------------------------------------------------------ what is appended *)
+Lemma appends_of_in ps : forall apps k v, appends_of ps = Ok apps -> In (k, v) apps ->
+  exists x y c, In (x, y) ps /\ interpret (s_lig x) (s_anc x) (s_tok x) (s_tok y) = Some c /\
+    ((k = s_lig x /\ v = ez_tuple (s_lig x) (s_anc x) (s_anc y) (s_lig y) c) \/
+     (k = s_lig y /\ v = ez_tuple (s_lig y) (s_anc y) (s_anc x) (s_lig x) c)).
+Proof.
+  induction ps as [|[x y] r IH]; cbn; intros apps k v H I.
+  - inversion H; subst. contradiction.
+  - destruct (interpret _ _ _ _) as [c|] eqn:E; cbn in H; [|discriminate].
+    destruct (appends_of r) as [b|] eqn:E2; cbn in H; [|discriminate]. inversion H; subst. clear H.
+    destruct I as [[= <- <-]|[[= <- <-]|I]].
+    + exists x, y, c. auto.
+    + exists x, y, c. auto 6.
+    + destruct (IH _ _ _ eq_refl I) as [x' [y' [c' [H1 H2]]]]. exists x', y', c'. auto.
+Qed.
+Lemma appends_of_both ps : forall apps x y, appends_of ps = Ok apps -> In (x, y) ps ->
+  exists c, interpret (s_lig x) (s_anc x) (s_tok x) (s_tok y) = Some c /\
+    In (s_lig x, ez_tuple (s_lig x) (s_anc x) (s_anc y) (s_lig y) c) apps /\
+    In (s_lig y, ez_tuple (s_lig y) (s_anc y) (s_anc x) (s_lig x) c) apps.
+Proof.
+  induction ps as [|[x0 y0] r IH]; cbn; intros apps x y H I; [contradiction|].
+  destruct (interpret _ _ _ _) as [c|] eqn:E; cbn in H; [|discriminate].
+  destruct (appends_of r) as [b|] eqn:E2; cbn in H; [|discriminate]. inversion H; subst. clear H.
+  destruct I as [[= -> ->]|I].
+  - exists c. cbn. auto.
+  - destruct (IH _ _ _ eq_refl I) as [c' [H1 [H2 H3]]]. exists c'. cbn. auto.
+Qed.
+Lemma interpret_class lf af t1 t2 c : interpret lf af t1 t2 = Some c -> c = v_cis \/ c = v_trans.
+Proof.
+  unfold interpret. destruct (lf <? af); [|destruct (af <? lf); [|discriminate]];
+  repeat (destruct (_ && _); [intros [= <-]; auto|]); discriminate.
+Qed.
+
+(** ------------------------------------------------------------------ ez_refs_valid, ez_symmetric *)
+Definition is_new (g g' : graph) (k : Z) (v : pyval) : Prop := In v (ez_list g' k) /\ ~ In v (ez_list g k).
+
+Lemma annotate_cg_inv g g' : annotate_ez_isomers_cgsmiles g = Ok g' ->
+  exists ps apps, all_pairs g (ez_class_dict g) = Ok ps /\ appends_of ps = Ok apps /\
+    shape g' = shape g /\ (forall k, ez_list g' k = ez_list (apply_appends g apps) k).
+Proof.
+  unfold annotate_ez_isomers_cgsmiles, annotate_ez_isomers, bind.
+  destruct (all_pairs g (ez_class_dict g)) as [ps|] eqn:E1; [|discriminate].
+  destruct (appends_of ps) as [apps|] eqn:E2; [|discriminate].
+  intros [= <-]. exists ps, apps. repeat split; try reflexivity; try assumption.
+  - rewrite del_class_shape. apply shape_apply_appends.
+  - intros k. apply del_class_ez_list.
+Qed.
+
+(** EVERY stored tuple that the step added is a path of the returned molecule *)
+Theorem ez_refs_valid g g' : wf_graph g -> annotate_ez_isomers_cgsmiles g = Ok g' ->
+  forall k v, In v (ez_list g' k) -> In v (ez_list g k) \/ tuple_ok g' k v = true.
+Proof.
+  intros W H k v I. destruct (annotate_cg_inv _ _ H) as [ps [apps [H1 [H2 [H3 H4]]]]].
+  rewrite H4 in I. destruct (apply_appends_in _ _ _ _ I) as [Old|New]; [now left|right].
+  destruct (appends_of_in _ _ _ _ H2 New) as [x [y [c [Ip [Hc Hkv]]]]].
+  destruct (pair_path _ _ _ _ _ W H1 Ip) as [P Q].
+  rewrite (shape_tuple_ok g' g _ _ H3). unfold tuple_ok.
+  destruct (interpret_class _ _ _ _ _ Hc) as [-> | ->];
+  destruct Hkv as [[-> ->]|[-> ->]]; cbn; rewrite Z.eqb_refl; cbn; rewrite ?P, ?Q; reflexivity.
+Qed.
+
+(** boolean form, as evaluated by the check on the implementation's result *)
+Corollary refs_ok_preserved g g' : wf_graph g -> refs_ok g = true ->
+  annotate_ez_isomers_cgsmiles g = Ok g' -> refs_ok g' = true.
+Proof.
+  intros W R H. unfold refs_ok in *. apply forallb_forall. intros n' In'. apply forallb_forall. intros v Iv.
+  destruct (ez_refs_valid _ _ W H _ _ Iv) as [Old|New]; [|assumption].
+  destruct (annotate_cg_inv _ _ H) as [ps [apps [_ [_ [Sh _]]]]].
+  rewrite (shape_tuple_ok g' g _ _ Sh).
+  (* the old list belongs to a node of g with the same key *)
+  assert (Hn : has_node g (nk n') = true).
+  { rewrite <- (shape_has_node g' g _ Sh). unfold has_node.
+    destruct (gfind (nk n') g') eqn:E; [reflexivity|]. exfalso.
+    clear - In' E. induction g' as [|m r IH]; [contradiction|]. cbn in E. destruct In' as [->|I].
+    - now rewrite Z.eqb_refl in E.
+    - destruct (Z.eqb (nk m) (nk n')); [discriminate|auto]. }
+  unfold has_node in Hn. destruct (gfind (nk n') g) as [n|] eqn:E; [|discriminate].
+  destruct (gfind_some _ _ _ E) as [In1 Hk]. rewrite forallb_forall in R. specialize (R _ In1).
+  rewrite forallb_forall in R. rewrite Hk in R. auto.
+Qed.
+
+(** each relation is stored on BOTH ligands, with mirrored tuples and the same class *)
+Theorem ez_symmetric g g' : wf_graph g -> annotate_ez_isomers_cgsmiles g = Ok g' ->
+  forall k v, is_new g g' k v ->
+  exists l1 a1 a2 l2 c, v = ez_tuple l1 a1 a2 l2 c /\ k = l1 /\ (c = v_cis \/ c = v_trans) /\
+                        In (ez_tuple l2 a2 a1 l1 c) (ez_list g' l2).
+Proof.
+  intros W H k v [I NI]. destruct (annotate_cg_inv _ _ H) as [ps [apps [H1 [H2 [H3 H4]]]]].
+  rewrite H4 in I. destruct (apply_appends_in _ _ _ _ I) as [Old|New]; [contradiction|].
+  destruct (appends_of_in _ _ _ _ H2 New) as [x [y [c [Ip [Hc Hkv]]]]].
+  destruct (appends_of_both _ _ _ _ H2 Ip) as [c' [Hc' [A1 A2]]].
+  rewrite Hc in Hc'. inversion Hc'; subst c'. clear Hc'.
+  destruct (pair_path _ _ _ _ _ W H1 Ip) as [P _]. unfold path_ok in P.
+  repeat (apply andb_true_iff in P; destruct P as [P ?]).
+  destruct Hkv as [[-> ->]|[-> ->]].
+  - exists (s_lig x), (s_anc x), (s_anc y), (s_lig y), c. repeat split; auto.
+    + eapply interpret_class; eauto.
+    + rewrite H4. apply apply_appends_new; assumption.
+  - exists (s_lig y), (s_anc y), (s_anc x), (s_lig x), c. repeat split; auto.
+    + eapply interpret_class; eauto.
+    + rewrite H4. apply apply_appends_new; assumption.
+Qed.
+
+(** ------------------------------------------------------------------ what the class means *)
+(** the table computes the geometric relation of the written marks exactly when the second
+    ligand's key is LARGER than its anchor's; otherwise it computes the opposite relation *)
+Lemma neg_class c : class_val (negb c) <> class_val c.
+Proof. destruct c; cbn; intros E; vm_compute in E; discriminate. Qed.
+
+Theorem class_iff_wrong (p : sub * sub) :
+  is_tok (s_tok (fst p)) = true -> is_tok (s_tok (snd p)) = true ->
+  s_lig (snd p) <> s_anc (snd p) ->
+  table (s_lig (fst p) <? s_anc (fst p)) (s_tok (fst p)) (s_tok (snd p)) =
+  (if pair_in_class p then class_val (negb (geom_cis (s_lig (fst p) <? s_anc (fst p)) (s_tok (fst p))
+                                                      (s_lig (snd p) <? s_anc (snd p)) (s_tok (snd p))))
+   else pair_geom p).
+Proof.
+  destruct p as [x y]. cbn [fst snd]. intros T1 T2 N. unfold pair_in_class, pair_geom, table, geom_cis, up. cbn [fst snd].
+  destruct (is_tok_cases _ T1) as [-> | ->], (is_tok_cases _ T2) as [-> | ->];
+  destruct (s_lig x <? s_anc x), (s_lig y <? s_anc y); reflexivity.
+Qed.
+
+(** the geometric relation does not care which end is enumerated first *)
+Lemma geom_cis_sym b1 t1 b2 t2 : geom_cis b1 t1 b2 t2 = geom_cis b2 t2 b1 t1.
+Proof. unfold geom_cis. destruct (up b1 t1), (up b2 t2); reflexivity. Qed.
+
+(** two pairs (of two variants) that denote the same two substituents, each ligand on the same side
+    (key-wise) of its anchor as in the other variant, possibly enumerated from the other end *)
+Definition flag (x : sub) : bool := s_lig x <? s_anc x.
+Definition same_sub (x x' : sub) : Prop := flag x = flag x' /\ s_tok x = s_tok x'.
+Definition same_substituents (p p' : sub * sub) : Prop :=
+  (same_sub (fst p) (fst p') /\ same_sub (snd p) (snd p')) \/
+  (same_sub (fst p) (snd p') /\ same_sub (snd p) (fst p')).
+Definition pair_result (p : sub * sub) : option pyval :=
+  interpret (s_lig (fst p)) (s_anc (fst p)) (s_tok (fst p)) (s_tok (snd p)).
+Definition pair_wf (p : sub * sub) : Prop :=
+  is_tok (s_tok (fst p)) = true /\ is_tok (s_tok (snd p)) = true /\
+  s_lig (fst p) <> s_anc (fst p) /\ s_lig (snd p) <> s_anc (snd p).
+
+Lemma pair_result_eq p : pair_wf p ->
+  pair_result p = Some (if pair_in_class p
+                        then class_val (negb (geom_cis (flag (fst p)) (s_tok (fst p)) (flag (snd p)) (s_tok (snd p))))
+                        else pair_geom p).
+Proof.
+  intros [T1 [T2 [N1 N2]]]. unfold pair_result. rewrite interpret_table by assumption.
+  f_equal. now apply class_iff_wrong.
+Qed.
+
+(** outside the class the stored class is the same in every variant ... *)
+Theorem order_invariant_outside_class p p' : pair_wf p -> pair_wf p' -> same_substituents p p' ->
+  pair_in_class p = false -> pair_in_class p' = false -> pair_result p = pair_result p'.
+Proof.
+  intros W W' Sm C C'. rewrite (pair_result_eq _ W), (pair_result_eq _ W'), C, C'. f_equal.
+  destruct p as [x y], p' as [x' y']. unfold pair_geom. cbn [fst snd] in *. fold (flag x) (flag y) (flag x') (flag y').
+  destruct Sm as [[[F1 T1] [F2 T2]]|[[F1 T1] [F2 T2]]]; cbn [fst snd] in *.
+  - now rewrite F1, T1, F2, T2.
+  - rewrite F1, T1, F2, T2. f_equal. apply geom_cis_sym.
+Qed.
+(** ... and a variant inside the class ALWAYS disagrees with a variant outside it: the predicate is exact *)
+Theorem class_exact p p' : pair_wf p -> pair_wf p' -> same_substituents p p' ->
+  pair_in_class p = true -> pair_in_class p' = false -> pair_result p <> pair_result p'.
+Proof.
+  intros W W' Sm C C'. rewrite (pair_result_eq _ W), (pair_result_eq _ W'), C, C'.
+  destruct p as [x y], p' as [x' y']. unfold pair_geom. cbn [fst snd] in *. fold (flag x) (flag y) (flag x') (flag y').
+  intros E. inversion E as [E']. clear E. revert E'.
+  destruct Sm as [[[F1 T1] [F2 T2]]|[[F1 T1] [F2 T2]]]; cbn [fst snd] in *; rewrite F1, T1, F2, T2.
+  - apply neg_class.
+  - rewrite (geom_cis_sym (flag y')). apply neg_class.
+Qed.
+
+(** ------------------------------------------------------------------ the refutation *)
+From CGV Require Import Stereo.EzWitness.
+(** the same molecule with the same marks, the two fragments listed in the other order:
+    the substituent pair F...I is stored as trans in one and as cis in the other *)
+Theorem order_refuted :
+  exists g1 g2 iso r1 r2,
+    wf_graphb g1 = true /\ wf_graphb g2 = true /\ same_marked_moleculeb iso g1 g2 = true /\
+    annotate_ez_isomers_cgsmiles g1 = Ok r1 /\ annotate_ez_isomers_cgsmiles g2 = Ok r2 /\
+    in_class g1 = false /\ in_class g2 = true /\
+    exists l1 a1 a2 l2,
+      In (ez_tuple l1 a1 a2 l2 v_trans) (ez_list r1 l1) /\
+      In (ez_tuple (iso l1) (iso a1) (iso a2) (iso l2) v_cis) (ez_list r2 (iso l1)).
+Proof.
+  exists w_AB, w_BA, w_iso. eexists. eexists.
+  split; [vm_compute; reflexivity|]. split; [vm_compute; reflexivity|]. split; [vm_compute; reflexivity|].
+  split; [vm_compute; reflexivity|]. split; [vm_compute; reflexivity|].
+  split; [vm_compute; reflexivity|]. split; [vm_compute; reflexivity|].
+  exists 0, 1, 3, 5. split; vm_compute; left; reflexivity.
+Qed.
+
+(** ------------------------------------------------------------------ chiral_stays *)
+From CGV Require Import Resolve.GraphOps.
+(** merge_graphs' per-atom attribute copy (GraphOps.merge_node, the model validated by the resolver
+    component's StepCheck) changes only 'fragid' and 'ez_isomer_atoms': the label stays on its atom *)
+Lemma merge_node_keeps off fo a a' k : k <> S "fragid" -> k <> S "ez_isomer_atoms" ->
+  merge_node off fo a = Ok a' -> aget k a' = aget k a.
+Proof.
+  intros N1 N2. unfold merge_node, bind.
+  destruct (match aget (S "fragid") a with Some v => as_int v | None => Ok 0 end) as [f|]; [|discriminate].
+  unfold shift_ez. destruct (aget (S "ez_isomer_atoms") _) as [v|].
+  - unfold bind. destruct (as_list v) as [[|x [|y r]]|]; try discriminate.
+    destruct (as_int x); [|discriminate]. destruct (as_int y); [|discriminate].
+    intros [= <-]. rewrite aget_aset_other by assumption. now apply aget_aset_other.
+  - intros [= <-]. now apply aget_aset_other.
+Qed.
+Theorem chiral_stays_merge off fo a a' : merge_node off fo a = Ok a' -> aget (S "chiral") a' = aget (S "chiral") a.
+Proof. apply merge_node_keeps; intros E; vm_compute in E; discriminate. Qed.
+
+(** the annotation step touches 'ez_isomer' and 'ez_isomer_class' only *)
+Lemma apply_appends_keeps apps a : a <> S "ez_isomer" -> forall g k,
+  node_get (apply_appends g apps) k a = node_get g k a.
+Proof.
+  intros N. induction apps as [|kt r IH]; intros g k; cbn; [reflexivity|].
+  unfold apply_appends in IH. rewrite IH. unfold append_ez. rewrite node_get_set.
+  destruct (_ && _); [|reflexivity]. destruct (str_eqb_spec a (S "ez_isomer")); [contradiction|reflexivity].
+Qed.
+Lemma annotate_keeps g g' k a : a <> S "ez_isomer" -> a <> S "ez_isomer_class" ->
+  annotate_ez_isomers_cgsmiles g = Ok g' -> node_get g' k a = node_get g k a.
+Proof.
+  intros N1 N2. unfold annotate_ez_isomers_cgsmiles, annotate_ez_isomers, bind.
+  destruct (all_pairs g (ez_class_dict g)) as [ps|]; [|discriminate].
+  destruct (appends_of ps) as [apps|]; [|discriminate]. intros [= <-].
+  rewrite del_class_get by assumption. now apply apply_appends_keeps.
+Qed.
+Theorem chiral_stays_annotate g g' k : annotate_ez_isomers_cgsmiles g = Ok g' ->
+  node_get g' k (S "chiral") = node_get g k (S "chiral") /\ node_keys g' = node_keys g.
+Proof.
+  intros H. split.
+  - apply annotate_keeps; [intros E; vm_compute in E; discriminate|intros E; vm_compute in E; discriminate|assumption].
+  - destruct (annotate_cg_inv _ _ H) as [_ [_ [_ [_ [Sh _]]]]]. now apply shape_node_keys.
+Qed.
